@@ -179,7 +179,13 @@ impl App {
         let is_read = method == 1 || method == 5;
         let lens = if is_read { &spec.lens } else { &spec.up_reply_lens };
         let len = if lens.is_empty() { 0 } else { lens[version as usize % lens.len()] };
-        let id = body_id(ep, method, &path, version);
+        let mut id = body_id(ep, method, &path, version);
+        if !is_read {
+            // the reply to an upload reflects what was delivered
+            let mut hb = crate::choices::Fnv::default();
+            hb.bytes(&body_in);
+            id ^= hb.0 & 0xFFFF_FFFF_FFFF;
+        }
         if let Some(r) = req.response.as_mut() {
             r.message.header.code = match spec.code {
                 Some(c) => MessageClass::from(c),
@@ -805,6 +811,18 @@ impl Server {
                     resp.message.payload = b"partial".to_vec();
                 }
             }
+            // a separate response: the handler gave the reply a message id
+            // and type of its own before the error came up (RFC 7252 5.2.2)
+            if mid % 8 == 3 {
+                if let Some(resp) = r.response.as_mut() {
+                    resp.message.header.message_id = resp.message.header.message_id.wrapping_add(0x5555);
+                    resp.message.header.set_type(coap_lite::MessageType::Confirmable);
+                }
+            }
+            // the reply was already taken out and sent
+            if mid % 8 == 6 {
+                r.response = None;
+            }
             let before = r.response.clone();
             let e2 = e.clone();
             let had_code = e.code.is_some();
@@ -930,6 +948,17 @@ impl Server {
             }
             if growth > 8 * 1024 {
                 stats.hit("probe.c11.jump-over-8k-accepted");
+            }
+        }
+        // a block whose offset needs a jump of more than 16 KiB beyond what is
+        // buffered is rejected: if it was not (no error), the buffered data
+        // must at least be what it was (a handler may ignore such an option)
+        if !errored {
+            if let Some((n, _m, s)) = arr.block1 {
+                let off = n as usize * szx_size(s);
+                if off > b && off - b > 16 * 1024 && before != after && a > 0 {
+                    self.violations.push(Violation::new("C11", "jump-rejected", format!("Block1 num {} szx {} (offset {}) needs a jump of {} bytes beyond the {} buffered and was accepted: buffer {:?} -> {:?}", n, s, off, off - b, b, before.map(|x| x.0), after.map(|x| x.0))));
+                }
             }
         }
         // a block refused for needing too large a jump leaves the buffer
